@@ -25,6 +25,9 @@ Split(msg) ==
        ELSE LET f == TsigFields(SubSeq(msg, d.ownerEnd + 11, d.end)) IN
             IF ~f.ok THEN [ok |-> FALSE] ELSE [ok |-> TRUE, start |-> ts, f |-> f, key |-> LowerName(o.name), d |-> d]
 
+\* a TTL with the most significant bit set counts as zero (RFC 2181 section 8), as in Server!TsigStep
+TtlZero(d) == d.ttlhi >= 32768 \/ (d.ttlhi = 0 /\ d.ttllo = 0)
+
 Fails(r) ==
   LET s == Split(r.msg) IN
   IF ~s.ok THEN {"C11"}
@@ -34,8 +37,11 @@ Fails(r) ==
            v == Split(r.vmsg) IN
        IF ~signOk THEN {"C11"}
        ELSE IF r.verdict = "panic" THEN {"C11"}
-       ELSE IF r.verdict = "unparsable" THEN (IF r.kind # "asis" THEN {} ELSE {"C11"})
-       ELSE IF ~v.ok \/ AlgOf(v.f.alg) # r.alg THEN {"C11"}
+       \* "unparsable" (no TSIG record could be read off the message: Reader / ReadTsigRr::try_from failed, or it names another
+       \* algorithm) exactly when this specification cannot read one either; a TSIG record has class ANY and TTL 0 (RFC 8945 4.2)
+       ELSE IF r.verdict = "unparsable"
+            THEN (IF v.ok /\ v.d.class = 255 /\ TtlZero(v.d) /\ AlgOf(v.f.alg) = r.alg THEN {"C11"} ELSE {})
+       ELSE IF ~v.ok \/ AlgOf(v.f.alg) # r.alg \/ v.d.class # 255 \/ ~TtlZero(v.d) THEN {"C11"}
        ELSE IF r.verdict = VerdictW(r.alg, r.key, Digest(r.mode, r.vmsg, v.start, v.key, v.f, r.prior), v.f, r.now) THEN {} ELSE {"C11"}
 
 VARIABLES l, bad, nbad
